@@ -605,3 +605,41 @@ def gc_made_only_from_carriers(chk, prog, config="default"):
                          sample={"fn": f["n"], "pointer": what, "from_arguments": bad})
             break
     chk.extra.setdefault("gc_assembly_sites_in_safe_fns_with_plain_pointer_arguments", {})[config] = n
+
+
+# ------------------------------------------------------------------------------------------------ thin prefix
+
+def thin_prefix_exists(chk, prog, config="default"):
+    """`Gc::as_thin_ref` hands safe code a `&'gc P::Thin` at the address of the value: every value of the pointee type,
+    of every length, must begin with a valid `Thin`. For a sized `T` that is `T` itself; for a header-plus-slice the
+    header (or nothing); for `[E]` and `str` - whose shortest value is empty - only a zero-sized `()`: with `Thin = E`
+    the empty slice yields a reference to an element that was never constructed."""
+    n = 0
+    for im in prog.impls:
+        if im.get("trait") != "meta::PtrMeta":
+            continue
+        thin = [it for it in im["items"] if it.get("name") == "Thin" and it.get("kind") == "AssocTy"]
+        targs = [a for a in im.get("trait_args", []) if "ty" in a]
+        if not thin or len(targs) < 2:
+            chk.inst("thin-prefix-exists-in-every-value", "%s[%s]" % (im.get("self_s"), config), False,
+                     detail="impl PtrMeta for %s: associated type Thin / pointee type not found" % im.get("self_s"))
+            continue
+        n += 1
+        x = prog.ty(targs[1]["ty"])
+        t = thin[0].get("ty_s") or ""
+        k = x.get("k")
+        if k in ("slice", "str"):
+            ok, why = t == "()", "the shortest value of `%s` is empty: only `()` is there in every value" % x.get("s")
+        elif k == "adt" and x.get("def") == "slice::SliceWithHeader":
+            hdr = prog.ty(x["args"][0]["ty"]).get("s") if x.get("args") and "ty" in x["args"][0] else None
+            ok, why = t in ("()", hdr), "every value begins with the header `%s` (and may have no elements)" % hdr
+        elif k == "adt" and x.get("def") == "static_wrapper::Static":
+            ok = t.startswith("static_wrapper::Static<") and "::Thin>" in t
+            why = "the transparent wrapper delegates to the wrapped type's Thin"
+        else:
+            ok, why = t in ("()", x.get("s")), "a sized value begins with itself"
+        chk.inst("thin-prefix-exists-in-every-value", "%s for %s[%s]" % (im.get("self_s"), x.get("s"), config), ok,
+                 detail="impl PtrMeta<%s> for %s declares Thin = `%s`: %s - safe Gc::as_thin_ref would hand out a reference "
+                        "to a value that need not exist" % (x.get("s"), im.get("self_s"), t, why),
+                 loc="%s:%s" % (im["span"]["f"], im["span"]["l"]), sample={"impl": im.get("self_s"), "pointee": x.get("s"), "thin": t})
+    chk.floor("ptr-meta-impls[%s]" % config, n, 4)
